@@ -210,7 +210,7 @@ Section Fixed.
   Lemma compiler_info_fixed c f p c' i :
     compiler_info detect false c f p = (c', i) ->
     match resolve FUEL f p with
-    | None => c' = c /\ i = IPanic
+    | None => c' = c /\ i = INoStat
     | Some (t, (b, m)) =>
         let k := (p, if snd t =? snd p then t else p) in
         (exists e, clookup k c = Some (Some e) /\ ce_mtime e = m /\ c' = c /\
